@@ -50,6 +50,9 @@ int run_c06(const Args& a, Recorder& rec) {
     for (int model : { 2, 1 }) for (int P : { 2, 3, 4 }) for (int comps : { 1, 2, 3, 5 }) for (int split = 0; split < 2; ++split) { if (!T && (P == 4 && comps != 3)) continue; if (!T && comps == 5 && P == 3) continue; add(model, P, 3, comps, 0, split, 0, T ? ((P == 2 && comps <= 3) ? 2 : 1) : ((P == 2 && comps <= 2) ? 1 : 0)); }
     for (int P : { 2, 3 }) add(2, P, 3, 2, 1, 1, 0, T ? 1 : 0);
     if (T) { for (int P : { 5, 8, 16 }) add(1, P, 3, 3, 0, 1, 0, 0); for (int P : { 2, 3 }) for (int split = 0; split < 2; ++split) add(3, P, 3, 3, 0, split, 0, 0); }
+    // the rank -> colour -> component arithmetic of the split path over the whole (P, components) grid, default schedule (bound 0):
+    // every rank count up to 8 (thorough: 16), fewer / as many / more components than ranks
+    for (int P = 4; P <= (T ? 16 : 8); ++P) for (int comps : { 1, 2, 3, 5 }) { if (P == 4 && comps == 3) continue; if (T && comps == 3 && (P == 5 || P == 8 || P == 16)) continue; add(2, P, 3, comps, 0, 1, 0, 0); if (T && P <= 8) add(2, P, 3, comps, 0, 0, 0, 0); }
     // OpenMP team sizes / chunk orders (single rank and two ranks)
     for (int omp : { 2, 3, 4, 16 }) for (int ord : { 0, 1, 2 }) { if (!T && omp == 16 && ord == 2) continue; add(1, 1, 2, 2, 0, 0, 0, 0, omp, ord); } add(1, 2, 3, 2, 0, 1, 0, 0, 3, 1);
     for (auto& cb : cfgs) {
